@@ -49,3 +49,17 @@ Theorem C10_roundtrip_needs_the_i32_offset_bound :
          Some {| sv_seq := seq; sv_tfdt := base; sv_samples := spec_seg_samples l |}).
 Proof. exact segment_roundtrip_needs_offset_bound. Qed.
 Print Assumptions C10_roundtrip_needs_the_i32_offset_bound.
+
+From Muxide Require Export Spec.Checks Proofs.FragHistoryProofs.
+(* WHOLE HISTORIES: for every configuration and every sequence of writes, flushes, readiness /
+   duration queries and init requests whose emitted segments stay inside the 32-bit bounds, the
+   executable conservation predicate (judging only the emitted bytes) holds of the model's outputs *)
+Theorem C10_fragmented_history_conserves_samples : forall (c : frag_config) (ops : list fop),
+  all_segments_fit ops ->
+  check_C10 ops (map fout_of (snd (frun (fmuxer_new c) ops))) = true.
+Proof. exact fragmented_history_conserves_samples. Qed.
+Print Assumptions C10_fragmented_history_conserves_samples.
+
+Theorem C10_fragmented_muxer_never_panics : forall ops m, ~ In FrPanic (snd (frun m ops)).
+Proof. exact frun_never_panics. Qed.
+Print Assumptions C10_fragmented_muxer_never_panics.
